@@ -202,11 +202,11 @@ Section InstP.
     - intros P. apply pt_eq. rewrite praw_psmul. unfold csmul, rsmul. fold n. rewrite Z_mod_same_full. reflexivity.
     - reflexivity.
     - intros P x y Hc. unfold pcoords in Hc. pose proof (praw_on P) as Ho. rewrite Hc in Ho.
-      unfold on_curve in Ho. apply andb_true_iff in Ho. destruct Ho as [Ho _]. cbn in Ho. lia.
+      unfold on_curve in Ho. apply andb_true_iff in Ho. destruct Ho as [Ho _]. cbn in Ho. clear - Ho. lia.
     - intros P x y Hc. unfold pcoords in *. rewrite praw_pneg.
       pose proof (all1_spec _ Hnegx P) as H1.
       cbv beta in H1. rewrite Hc in H1. destruct (cneg (Some (x, y))) as [[x' y']|] eqn:E; [|discriminate].
-      rewrite Hc, E. exists y'. f_equal. f_equal. lia.
+      rewrite Hc, E. exists y'. f_equal. f_equal. clear - H1. lia.
   Qed.
 
   Theorem inst_lift_laws : lift_laws (pt c) (pcoords c) (plift_x c) (x_canonical c).
@@ -217,7 +217,7 @@ Section InstP.
       pose proof (allz_spec _ _ Hls x Hx) as H1.
       cbv beta in H1. rewrite Hl in H1. unfold pcoords.
       destruct (praw c P0) as [[x0 y0]|]; [|discriminate]. destruct (praw c P1) as [[x1 y1]|]; [|discriminate].
-      assert (x0 = x /\ x1 = x /\ Z.odd y0 = false /\ Z.odd y1 = true) as [-> [-> [E0 E1]]] by lia.
+      assert (x0 = x /\ x1 = x /\ Z.odd y0 = false /\ Z.odd y1 = true) as [-> [-> [E0 E1]]] by (clear - H1; lia).
       split; eexists; split; reflexivity || assumption.
     - intros P x y Hc. unfold pcoords in Hc.
       pose proof (all1_spec _ Hlc P) as H1.
